@@ -150,6 +150,59 @@ func driveMux(c *hx.Ctx) error {
 		streams = append(streams, "mux_sizes")
 	}
 
+	// --- frames for ids nobody has open at the receiving end, back to back with frames for open ids, delivered
+	// to a reader that starts late: it has to drop exactly the stray frames (never opened, or closed again)
+	r = c.Rand("mux_stray")
+	strayPool := []uint32{9, 4242, 70000, 0x7ffffffe}
+	for i, n := 0, c.Pick(40, 300); i < n; i++ {
+		k := 1 + r.Intn(3)
+		s := &xferScn{Transport: "unix", QLen: 256, IDs: pickIDs(r, k), ByteLevel: true, Blocked: "written"}
+		perm := r.Perm(len(strayPool))
+		for side := 0; side < 2; side++ {
+			never, closed := strayPool[perm[2*side]], strayPool[perm[2*side+1]]
+			s.Gone[side] = []uint32{never, closed}
+			s.GoneClosed[side] = []uint32{closed}
+			frames, budget := 0, 9000
+			for w, nw := 0, 1+r.Intn(3); w < nw; w++ {
+				var prog []wr
+				for j, m := 0, 2+r.Intn(7); j < m && frames < 30; j++ {
+					sz := smallSize(r)
+					if sz+8 > budget {
+						sz = 0
+					}
+					budget -= sz + 8
+					id := s.IDs[r.Intn(k)]
+					if r.Intn(5) < 2 {
+						id = s.Gone[side][r.Intn(2)]
+					}
+					if j == 0 && w == 0 {
+						id = s.Gone[side][i%2] // a stray frame among the first on the trunk
+					}
+					prog = append(prog, wr{ID: id, Size: sz})
+					frames++
+				}
+				s.Progs[side] = append(s.Progs[side], prog)
+			}
+		}
+		scns = append(scns, scenario{X: s})
+		streams = append(streams, "mux_stray")
+	}
+	// the same with a multi-frame payload for an id nobody has open, between frames for open ids
+	for i, n := 0, c.Pick(2, 8); i < n; i++ {
+		s := &xferScn{Transport: "unix", QLen: 256, IDs: pickIDs(r, 2), Blocked: "big"}
+		for side := 0; side < 2; side++ {
+			s.Gone[side] = []uint32{strayPool[side], strayPool[2+side]}
+			s.GoneClosed[side] = []uint32{strayPool[2+side]}
+			big := []int{maxp + 1, 2 * maxp, 2*maxp + 5, maxp/2 + r.Intn(2*maxp)}[(i+side)%4]
+			s.Progs[side] = append(s.Progs[side], []wr{{s.IDs[0], 5}, {s.Gone[side][i%2], 3}, {s.IDs[1], 40},
+				{s.Gone[side][(i+side)%2], big}, {s.IDs[0], 17}, {s.IDs[1], 0}, {s.IDs[0], 300}, {s.Gone[side][1], 9}, {s.IDs[1], 2}})
+			s.Progs[side] = append(s.Progs[side], []wr{{s.IDs[1], 1 + smallSize(r)}, {s.IDs[0], 1 + smallSize(r)}})
+			s.Gated[side] = []int{1}
+		}
+		scns = append(scns, scenario{X: s})
+		streams = append(streams, "mux_stray")
+	}
+
 	// byte-level and medium scenarios are cheap: run them in parallel children; the
 	// multi-megabyte ones one after the other
 	var small, big []int
@@ -203,6 +256,7 @@ func driveMux(c *hx.Ctx) error {
 	c.Stats.Rule = "mux_bytes: 1-5 connection ids (incl. 1, 2 and the highest uint32), 1-4 concurrent writer goroutines per side each issuing 1-8 Writes of 0..600 bytes to random ids, both directions at once, queue lengths 1,2,3,8,256 with readers that keep up (credit flow control), net.Pipe and unix socketpair alternating; the recorded trunk bytes, the serialisation found by parsing them and every Read result are compared byte for byte inside Coq. " +
 		"mux_sizes: the same with payloads at the chunk boundaries 0,1,max-1,max,max+1,2max-1,2max,2max+1,3max-1,3max and random sizes up to 3*max next to medium traffic; compared in Coq at the level of frame headers (size-level model), content on SHA-256 in the driver. " +
 		"mux_readbuf: one connection, 1-7 frames of 0..600 bytes queued, then one Read per frame with a buffer whose length and capacity are chosen relative to the frame (len < frame <= cap, len = frame, len > frame, len <= cap < frame, len = frame-1 with cap = frame, random); the returned count, error class and buf[:min(n,len)] are compared in Coq with Model.Mux.read_buf_step and judged by holds_readbuf (n <= len(buf) and the whole frame, or ENOMEM and the frame does not fit); non-trivial when some buffer is shorter than its frame. " +
+		"mux_stray: unix socketpair, both readers blocked (WithBlockedRead) until every writer has finished, so that the frames lie back to back in the socket buffer; the writers also write (40% of the Writes, one of the first frames always) to ids that nobody can read at the other end — one never opened there, one opened and closed with conn.Close before the start — small payloads (byte level) and multi-frame payloads (unblocked while the large payload is on its way); the open connections must get exactly their bytes (corr_bytes/holds_bytes on trunk and Reads: the model drops the stray frames and nothing else). " +
 		"A case is non-trivial when at least two Writes share the trunk. A trunk that does not parse into whole Writes, a Read or Write error, a missing byte or a time-out is a failing input."
 	return nil
 }
@@ -260,6 +314,12 @@ func emitXfer(c *hx.Ctx, stream string, idx int, s *xferScn, r scnResult, maxp i
 		c.ImplFail(stream, "Read/Write error, lost data or time-out although the receiver kept up: "+o.Fails[0], raw)
 	}
 	c.Count("transport."+s.Transport, 1)
+	if s.Blocked != "" {
+		c.Count("blocked_reader_scenarios."+s.Blocked, 1)
+		if o.Early {
+			c.Count("blocked_reader_scenarios.unblocked_by_timer", 1)
+		}
+	}
 	c.Count(fmt.Sprint("qlen.", s.QLen), 1)
 	c.Count(fmt.Sprint("ids.", len(s.IDs)), 1)
 	for d := 0; d < 2; d++ {
@@ -284,6 +344,15 @@ func emitXfer(c *hx.Ctx, stream string, idx int, s *xferScn, r scnResult, maxp i
 		c.Count("frames", len(do.Frames))
 		c.Count("trunk_bytes", do.Bytes)
 		switches := 0
+		gone := map[uint32]bool{}
+		for _, id := range s.Gone[d] {
+			gone[id] = true
+		}
+		for _, sw := range do.Serial {
+			if gone[sw.ID] {
+				c.Count("writes_to_ids_not_open_at_the_receiver", 1)
+			}
+		}
 		for i, sw := range do.Serial {
 			c.Count("write_size."+sizeClass(sw.Size, maxp), 1)
 			if sw.Size > maxp {
